@@ -409,6 +409,28 @@ func generate(family string, rng *rand.Rand, thorough bool) []plan {
 				}
 			}
 		}
+		// a failing Lift / LiftF whose error nobody ever reads (the consumer looks at the values only): the stage has
+		// reported it into its error channel, returned and closed both channels - at every capacity, 0 included
+		for r := 0; r < 3*mul; r++ {
+			cp := r % 3
+			bad := 3*rng.Intn(3) + 1 // = 1 mod 3
+			in := []int{bad, 5}
+			if r%2 == 1 {
+				in = []int{3, bad, 6} // a good element first
+			}
+			var st *Stage
+			if r%4 < 2 {
+				st = &Stage{Kind: "map", A: 1, B: 1, Fail: &Fail{Kind: "modeq", M: 3, R: 1}}
+			} else {
+				st = &Stage{Kind: "fmap", M: 3, Fail: &Fail{Kind: "modeq", M: 3, R: 1}}
+			}
+			var sc []intent
+			for range in {
+				sc = append(sc, intent{kind: "send", i: 0}, intent{kind: "recv", k: 0}, intent{kind: "recv", k: 0})
+			}
+			sc = append(sc, intent{kind: "recv", k: 0}, intent{kind: "close", i: 0}, intent{kind: "cancel"})
+			add(plan{stage: st, icaps: []int{cp}, inputs: [][]int{in}, sched: &scripted{script: sc}, maxMoves: 40, drain: false, gen: "absent-consumer"})
+		}
 		// Emit under Try whose function fails for ever from some index on (an exhausted source): after the cancel the
 		// error path must notice it too - the goroutine exits and both channels close, errors read or not
 		for r := 0; r < 6*mul; r++ {
